@@ -661,6 +661,13 @@ func historyFor(c *Case) {
 		return
 	}
 	c.History = "none"
+	if usesPatterns(c.Script) && evid.Digest("history"+c.Script)%8 == 4 {
+		// tables that the whole process shares (compiled patterns) grow by
+		// hundreds of entries after the script's own patterns have been met
+		// (on another evaluator: nothing this one remembers is touched)
+		c.History = "pattern-flood"
+		return
+	}
 	if c.Exp.CheckGlobals || c.Kind == "stepped" || strings.Contains(c.Script, "++") || strings.Contains(c.Script, "--") {
 		return // not idempotent, or the variables left behind are compared
 	}
@@ -673,17 +680,24 @@ func historyFor(c *Case) {
 		c.History = "nil-first"
 	case 3:
 		c.History = "twice"
-	case 4:
-		// tables that the whole process shares (compiled patterns) grow by
-		// hundreds of entries between two runs of the script
-		if usesPatterns(c.Script) {
-			c.History = "pattern-flood"
-		}
 	}
 }
 
 func usesPatterns(script string) bool {
 	return strings.Contains(script, "~=") || strings.Contains(script, "!~") || strings.Contains(script, "match") || strings.Contains(script, "replace") || strings.Contains(script, "case /")
+}
+
+// scratchRun runs the script once on an evaluator of its own.
+func scratchRun(script string, obj interface{}) {
+	r := eng.NewRunner(script)
+	ctx, cancel := context.WithTimeout(context.Background(), 5*time.Second)
+	defer cancel()
+	r.E.SetContext(ctx)
+	if err, pan := r.Prepare(false); err != nil || pan != nil {
+		return
+	}
+	defer func() { _ = recover() }()
+	_, _ = r.E.Execute(obj)
 }
 
 var floodSalt int64
@@ -713,8 +727,8 @@ func playHistory(r *eng.Runner, history, script string, obj interface{}) {
 	case "twice":
 		quiet(obj)
 	case "pattern-flood":
-		quiet(obj)        // the patterns of the script are known to the process ...
-		patternFlood(300) // ... then come hundreds of others
+		scratchRun(script, obj) // the patterns of the script are known to the process ...
+		patternFlood(300)       // ... then come hundreds of others
 	case "nil-first":
 		quiet(nil)
 	case "wider-object-first":
